@@ -1096,6 +1096,12 @@ class Interp:
                                 names.add(x.id)
                             if isinstance(x, ast.Attribute) and isinstance(x.ctx, ast.Store):
                                 attrs.add(x.attr)
+                            if isinstance(x, ast.Subscript) and isinstance(x.ctx, ast.Store) and isinstance(x.value, ast.Name):
+                                names.add(x.value.id)   # `d[k] = v` changes the local container d
+                if isinstance(n, ast.Delete):
+                    for t in n.targets:
+                        if isinstance(t, ast.Subscript) and isinstance(t.value, ast.Name):
+                            names.add(t.value.id)
                 if isinstance(n, ast.Call) and isinstance(n.func, ast.Attribute) and n.func.attr in MUTATORS:
                     v = n.func.value
                     if isinstance(v, ast.Attribute):
@@ -1647,6 +1653,20 @@ class Interp:
             self._drop_facts(st, {target.attr}, fr)
             if not quiet:
                 st.trace.append(Store(cls, target.attr, base, v, stmt, fr.func, fr.stack, aug=aug, prev=prev))
+        elif isinstance(target, ast.Subscript) and isinstance(target.value, ast.Name) and isinstance(st.env.get(target.value.id), DictV) \
+                and not isinstance(target.slice, ast.Slice):
+            # `d[k] = v` on a local dict: an entry with an equal key is replaced, a new key is added; when it cannot be decided
+            # whether the key is already there, the dict is no longer known
+            d = st.env[target.value.id]
+            key = self.eval(target.slice, st, fr)
+            rs = [self._equal(key, k) for k, _v, _r in d.entries]
+            if any(r is True for r in rs):
+                i = rs.index(True)
+                st.env[target.value.id] = DictV(d.entries[:i] + [(d.entries[i][0], v, None)] + d.entries[i + 1:])
+            elif all(r is False for r in rs) and (isinstance(key, (Const, Unk)) or (isinstance(key, EnumSet) and key.single() is not None) or (isinstance(key, Poly) and key.is_const())):
+                st.env[target.value.id] = DictV(d.entries + [(key, v, None)])
+            else:
+                st.env[target.value.id] = Unk(f"dict~{next(self._fresh)}", ("dict", None, None))
         elif isinstance(target, ast.Subscript):
             self._mut_event(target.value, "setitem", [v], stmt, st, fr)
         else:
@@ -2041,6 +2061,8 @@ class Interp:
         if isinstance(e, ast.Set):
             return ListV([self.eval(x, st, fr, effects) for x in e.elts], True, "set")
         if isinstance(e, ast.Dict):
+            if not e.keys:
+                return DictV([])   # a dict built up entry by entry (`d[k] = v`)
             if e.keys and all(k is not None for k in e.keys):
                 ents = []
                 for k, v in zip(e.keys, e.values):
@@ -2248,6 +2270,23 @@ class Interp:
             args = [self.eval(a, st, fr, effects) for a in e.args]
             if effects:
                 self._mut_event(f.value, f.attr, args, e, st, fr, list(e.args))
+            return Unk(f"{ast.unparse(f)[:40]}()")
+        if isinstance(f, ast.Attribute) and f.attr in ("values", "keys", "items") and not e.args and not e.keywords and isinstance(f.value, ast.Name) \
+                and isinstance(st.env.get(f.value.id), DictV):
+            dv = st.env[f.value.id]
+            vals = [(st.env.get(r, v) if r else v) for _k, v, r in dv.entries]
+            if f.attr == "values":
+                return ListV(vals, True, "list")
+            if f.attr == "keys":
+                return ListV([k for k, _v, _r in dv.entries], True, "list")
+            return ListV([ListV([k, v], True, "tuple") for (k, _v, _r), v in zip(dv.entries, vals)], True, "list")
+        if isinstance(f, ast.Attribute) and f.attr in MUTATORS and isinstance(f.value, ast.Name) and isinstance(st.env.get(f.value.id), DictV) and f.attr != "setitem":
+            # update / pop / clear ... on a local dict: its contents are no longer tracked
+            for a0 in e.args:
+                self.eval(a0, st, fr, effects)
+            for kw in e.keywords:
+                self.eval(kw.value, st, fr, effects)
+            st.env[f.value.id] = Unk(f"dict~{next(self._fresh)}", ("dict", None, None))
             return Unk(f"{ast.unparse(f)[:40]}()")
         if isinstance(f, ast.Attribute) and f.attr == "get" and e.args and not e.keywords:
             dv = self.eval(f.value, st, fr)
@@ -2860,6 +2899,8 @@ class Interp:
     def _equal(self, a, b):
         if isinstance(a, Const) and isinstance(b, Const):
             return a.v == b.v
+        if type(a) is Unk and type(b) is Unk and a.tag == b.tag and not a.tag.startswith(("comp~", "dict~", "chain~", "binop~", "union~")):
+            return True   # the same unknown (same access path) read twice
         if isinstance(a, EnumSet) and isinstance(b, EnumSet):
             va, vb = self._enum_val(a), self._enum_val(b)
             if not (va & vb):
